@@ -341,7 +341,7 @@ def run(S, tier, rep):
             if kind == "2d":
                 cs = [c for c in cs if c["penalty_zone_width"] in (0, 2)]
             if kind == "3d":
-                cs = [c for c in cs if c["with_forcing"] and (c["filter"] is None or c["filter"][1] == 1)]
+                cs = [c for c in cs if c["with_forcing"] and (c["filter"] is None or c["filter"][0] == "multiplicative")]
         cfgs += cs
     parallel_over(S, rep, "sa.props.c14", "sim_config", cfgs)
     kernel_level(S, rep, tier)
